@@ -2,6 +2,7 @@ package main
 
 import (
 	"fmt"
+	"go/constant"
 	"go/token"
 	"sort"
 	"strings"
@@ -20,9 +21,11 @@ func init() {
 			"(R6) every constant-bound index/slice in the repo functions statically reachable from the record parsers is dominated by a length test implying the bound. " +
 			"(R7) in every Record.Marshal implementation a deleted record yields no data before any other rejection can apply: each error exit other than the missing-meta one is reachable only past the Deleted test (sibling agreement Base/Wrapper; shared with C13-R7). " +
 			"(R8) error discipline over package database/record: " + repoErrText + ". " +
+			"(R9) ParseKey splits a key at its first colon only: the database-key part is everything after it (colons inside the key are data), so the key of a parsed record equals the key it was stored under. " +
 			"NOT decided: round-trip equality for all records, totality of the third-party codecs.",
 		Rules: []ruleFn{c08R1, c08R2, c08R3, c08R4, func(c *Ctx, r *Report) { blockReaderRule(c, r, "C08-R5") }, c08R6, func(c *Ctx, r *Report) { deletedFirstRule(c, r, "C08-R7") },
-			repoErrRuleFor("C08-R8", 6, func(c *Ctx, fn *ssa.Function) bool { return short(fn.Pkg.Pkg.Path()) == "database/record" }, map[string]string{})},
+			repoErrRuleFor("C08-R8", 6, func(c *Ctx, fn *ssa.Function) bool { return short(fn.Pkg.Pkg.Path()) == "database/record" }, map[string]string{}),
+			c08R9},
 	})
 }
 
@@ -619,4 +622,91 @@ func deletedFirstRule(c *Ctx, r *Report, rule string) {
 	if n < 2 {
 		r.Undecided(rule, "Record.Marshal implementations", fmt.Sprintf("found %d implementations, expected Base and Wrapper", n))
 	}
+}
+
+// c08R9: the key part is the whole remainder after the first ':'.
+func c08R9(c *Ctx, r *Report) {
+	const rule = "C08-R9"
+	r.SetFloor(rule, 1)
+	fn := c.Func("database/record.ParseKey")
+	if fn == nil {
+		r.Undecided(rule, "database/record.ParseKey", "anchor function missing")
+		return
+	}
+	isColon := func(v ssa.Value) bool {
+		cst, ok := v.(*ssa.Const)
+		return ok && cst.Value != nil && cst.Value.Kind() == constant.String && constant.StringVal(cst.Value) == ":"
+	}
+	// 1 whole remainder, 0 lossy, -1 unknown
+	var whole func(v ssa.Value, depth int) int
+	whole = func(v ssa.Value, depth int) int {
+		if depth > 6 {
+			return -1
+		}
+		switch x := v.(type) {
+		case *ssa.Const:
+			return 1 // "" when there is no colon
+		case *ssa.Phi:
+			res := 1
+			for _, e := range x.Edges {
+				if k := whole(e, depth+1); k < res {
+					res = k
+				}
+			}
+			return res
+		case *ssa.Call:
+			if calleeName(&x.Call) == "strings.Join" && isColon(x.Call.Args[1]) {
+				// Join(splitted[1:], ":") restores what Split/SplitN took apart
+				if sl, ok := x.Call.Args[0].(*ssa.Slice); ok {
+					if lo, isC := constInt(sl.Low); isC && lo == 1 && sl.High == nil {
+						if sp, ok := sl.X.(*ssa.Call); ok && (calleeName(&sp.Call) == "strings.Split" || calleeName(&sp.Call) == "strings.SplitN") && isColon(sp.Call.Args[1]) {
+							return 1
+						}
+					}
+				}
+				return -1
+			}
+		case *ssa.Extract:
+			if call, ok := x.Tuple.(*ssa.Call); ok && calleeName(&call.Call) == "strings.Cut" && isColon(call.Call.Args[1]) && x.Index == 1 {
+				return 1
+			}
+		case *ssa.UnOp:
+			if ia, ok := x.X.(*ssa.IndexAddr); ok {
+				if sp, ok := ia.X.(*ssa.Call); ok && isColon(sp.Call.Args[1]) {
+					idx, isC := constInt(ia.Index)
+					switch calleeName(&sp.Call) {
+					case "strings.SplitN":
+						if n, isN := constInt(sp.Call.Args[2]); isN && n == 2 && isC && idx == 1 {
+							return 1
+						}
+						return 0
+					case "strings.Split":
+						return 0 // one element of an unbounded split drops everything after the next colon
+					}
+				}
+			}
+		case *ssa.Slice:
+			if x.High == nil && x.Low != nil {
+				return 1 // key[i+1:]
+			}
+		}
+		return -1
+	}
+	n := 0
+	eachInstr(fn, func(in ssa.Instruction) {
+		ret, ok := in.(*ssa.Return)
+		if !ok || len(ret.Results) < 2 {
+			return
+		}
+		n++
+		cons := fmt.Sprintf("database/record.ParseKey / key part of return #%d is the whole remainder", n)
+		switch whole(retVal(ret, 1), 0) {
+		case 1:
+			r.OK(rule, cons, "everything after the first colon (or empty)")
+		case 0:
+			r.Bad(rule, cons, "the key part is a single element of a split on ':' - everything after a second colon is dropped, so a record stored under 'db:a:b' is parsed back as 'db:a'", c.Pos(ret.Pos()))
+		default:
+			r.Undecided(rule, cons, "derivation of the key part not understood: "+vpath(retVal(ret, 1)))
+		}
+	})
 }
